@@ -141,7 +141,7 @@ PROPS = {
     "C07": {
         "lean": ["GldapModel.Props.C07"], "audit": "GldapModel/Audit/C07.lean",
         "inventory": LIFECYCLE_FUNCS,
-        "streams": [{"stream": "c07", "n_quick": 13, "n_thorough": 130, "timeout_quick": 900, "timeout_thorough": 3000}],
+        "streams": [{"stream": "c07", "n_quick": 14, "n_thorough": 140, "timeout_quick": 900, "timeout_thorough": 3000}],
         "trusted": RUNTIME_TRUST,
         "assumptions": ["partial: stack exhaustion in the third-party BER reader on deeply nested input is a fatal error no recover can catch; it is outside the model and recorded as a known finding"],
     },
